@@ -574,8 +574,12 @@ class Flow:
                             new |= self.iter_atoms(expr, idx, sc, bind,
                                                    depth, sn)
                     if not new <= table[name]:
-                        table[name] |= new
-                        changed = True
+                        add = new - table[name]
+                        if _round and table[name]:
+                            add = self._widen(table[name], add)
+                        if add:
+                            table[name] |= add
+                            changed = True
                     pl = set()
                     for kind, expr, idx in ds:
                         if kind != 'item':
@@ -594,6 +598,34 @@ class Flow:
             del self._partial[key]
         self._tables[key] = table
         return table
+
+    @staticmethod
+    def _widen(have, add):
+        """Widening of the fixpoint: an access path that extends a path the
+        variable already has by accessors that path already contains
+        (`s.string.replace(..).string` over `s.string.replace(..)`) is a
+        re-application of a self-referential definition (`s, q = f(s)`):
+        it is dropped, which keeps the set of paths finite."""
+        from .facts import components
+        out = set()
+        comps = {}
+        for o in have:
+            if o.startswith(('const:', 'key:', 'alloc:')):
+                continue
+            comps[o] = set(components(o)[1:])
+        for n in add:
+            drop = False
+            if not n.startswith(('const:', 'key:', 'alloc:')):
+                for o, cs in comps.items():
+                    if cs and len(n) > len(o) and n.startswith(o) and \
+                            n[len(o)] in '.[(':
+                        rest = components('x' + n[len(o):])[1:]
+                        if rest and all(r in cs for r in rest):
+                            drop = True
+                            break
+            if not drop:
+                out.add(n)
+        return out
 
     def _plain_atoms(self, ds, sc, bind, depth):
         out = set()
